@@ -256,6 +256,18 @@ func oracleC03(p *sim.Plan, out *sim.Outcome) []sim.Violation {
 			if r.Conn == curConn {
 				for _, m := range pendingConfirm {
 					maybeAcked[m.payload] = true
+					// an identifier the broker has handed out again since belongs to a flow it has completed: the
+					// acknowledgement was seen
+					reused := false
+					for _, x := range unacked {
+						if x.pid == m.pid && x.seq > m.seq {
+							reused = true
+						}
+					}
+					if reused {
+						completed[m.payload] = true
+						continue
+					}
 					// the broker may not have seen the ack: it may legitimately retransmit — at its original place
 					m.ackSent = true
 					at := len(unacked)
